@@ -69,7 +69,7 @@ def gen_hints(rng):
     out = []
     # mostly short lists; one in ten is long (dozens of entries, as a peer with many interfaces or a hostile one sends)
     for _ in range(rng.randint(1, 7) if rng.random() < 0.9 else rng.randint(25, 90)):
-        k = rng.choice(["valid", "mut", "mut", "relay", "relay-bad", "tree", "tor", "samehost"])
+        k = rng.choice(["valid", "mut", "mut", "relay", "relay-bad", "tree", "tor", "samehost", "nonobj"])
         if k == "valid":
             out.append(valid_direct(rng))
         elif k == "mut":
@@ -97,6 +97,9 @@ def gen_hints(rng):
             elif c == "prio":
                 h["hints"] = [dict(valid_direct(rng), priority=rng.choice([None, "x", [1], {"p": 1}])), dict(valid_direct(rng), priority=rng.choice(["y", 2, None]))]
             out.append(h)
+        elif k == "nonobj":
+            # something in hint position that is no JSON object at all (a string, a number, null, a list)
+            out.append(rng.choice([x_ for x_ in JUNK if not isinstance(x_, dict)]))
         elif k == "tree":
             t = random_tree(rng)
             out.append(t if isinstance(t, dict) else {"type": t})
@@ -139,7 +142,8 @@ def allowed_targets(hints, tor=False):
 
     def one(h):
         nonlocal bad
-        if isinstance(h, dict) and h.get("type") in (("direct-tcp-v1", "tor-tcp-v1") if tor else ("direct-tcp-v1",)) and isinstance(h.get("hostname"), str) and isinstance(h.get("port"), int):
+        if isinstance(h, dict) and h.get("type") in (("direct-tcp-v1", "tor-tcp-v1") if tor else ("direct-tcp-v1",)) and isinstance(h.get("hostname"), str) and isinstance(h.get("port"), int) \
+                and not isinstance(h.get("port"), bool) and 0 <= h["port"] <= 65535:
             ok.add((h["hostname"], h["port"]))
         else:
             bad += 1
@@ -439,6 +443,10 @@ def run_roundtrip(spec):
     world.local_addresses = ["127.0.0.1"] + rng.sample(["10.0.0.1", "10.0.0.2", "10.0.0.3", "192.168.7.9"], rng.randint(1, 3))
     key = rng.randbytes(32)
     viol = []
+    # the listener's port is whatever the kernel hands out: the ends of the range are ports like any other
+    edge_port = rng.choice([None, None, 65535, 65534, 1, 1024, 49152, 32768])
+    if edge_port is not None:
+        r.port_plan = [edge_port]
     if rng.random() < 0.5:
         rc = transit.TransitReceiver(None, no_listen=False, reactor=r)
         rc.set_transit_key(key)
@@ -474,7 +482,7 @@ def run_roundtrip(spec):
     if not ok:
         viol.append({"key": "C20/roundtrip/%s/no-connection" % path, "msg": "", "witness": wit})
     world.finish()
-    return {"violations": viol, "nontrivial": [path, sorted(want)], "counters": {"roundtrips": 1, "dials": len(dialled)},
+    return {"violations": viol, "nontrivial": [path, sorted(want)], "counters": {"roundtrips": 1, "dials": len(dialled), "roundtrips_on_port_65535_or_65534": int(edge_port in (65535, 65534) and any(p_ == edge_port for (_, p_) in want))},
             "sample": {"kind": "roundtrip", "path": path, "want": sorted(want), "dialled": sorted(dialled, key=repr)}}
 
 
